@@ -19,7 +19,8 @@ type Sec struct {
 	GDAttrs uint16
 	GDExtra []byte // bytes between the GUID-defined header and the payload (DataOffset > 24)
 	Vol     *Vol   // FV image section
-	Ext     bool   // force the 8-byte extended header form is NOT generated (would be rewritten); kept false
+	Ext     bool   // leaf section written with the extended common header (size field 0xFFFFFF + 32-bit size)
+	               // although it is smaller than 16 MiB; fiano keeps leaf sections as they are
 }
 
 type File struct {
@@ -138,7 +139,7 @@ func (e *emitter) sec(s *Sec, base int) []byte {
 	out := make([]byte, 4, n+4)
 	put3(out, n)
 	out[3] = s.Type
-	if n >= 0xFFFFFF { // extended section header: 0xFFFFFF, type, 32-bit size
+	if n >= 0xFFFFFF || (s.Ext && s.Vol == nil && isLeafType(s.Type)) { // extended section header: 0xFFFFFF, type, 32-bit size
 		n += 4
 		put3(out, 0xFFFFFF)
 		out = binary.LittleEndian.AppendUint32(out, uint32(n))
@@ -352,6 +353,7 @@ type Opts struct {
 	Strings    bool // UI / version / depex sections (regenerated from parsed fields on save)
 	Alignments bool
 	BigBodies  bool
+	LargeSecs  bool // some leaf sections in the extended-header form (opt-in: C01)
 }
 
 func ucs2(s string) []byte {
@@ -449,8 +451,21 @@ func GenSec(r *Rng, o Opts, depth int) *Sec {
 	default:
 		s.Type = byte(r.Pick(0x10, 0x11, 0x12, 0x19, 0x19))
 		s.Body = body(r, o)
+		if o.LargeSecs && r.Chance(1, 6) {
+			s.Ext = true
+		}
 	}
 	return s
+}
+
+// isLeafType: section types that fiano neither interprets nor regenerates and that may use the
+// extended common header (the parser only honours it for the types it knows)
+func isLeafType(t byte) bool {
+	switch t {
+	case 0x10, 0x11, 0x12, 0x19, 0x18, 0x01, 0x03, 0x16:
+		return true
+	}
+	return false
 }
 
 var sectionedTypes = []int{2, 3, 4, 5, 7, 8, 9, 10, 11, 12, 13, 14, 15}
